@@ -251,14 +251,22 @@ func c11Refresh(p *chk.Prog, r *chk.Report) {
 				continue
 			}
 			removed := g.GPat(true, "NP.ByName[K] == nil", chk.H("NP", newPools), chk.H("K", k))
-			es := g.EdgesImplying(removed)
-			if len(es) != 1 {
+			if !g.EdgeImpliesAny(removed) && !g.EdgeImpliesAny(chk.GNot(removed)) {
 				continue
 			}
-			okRemoved = !g.BranchAlways(es[0], sp.ContainsPat("deleteStatsFor(K)", chk.H("K", k))).Found &&
-				!g.BranchAlways(es[0], sp.ContainsPat("delete(RECV.poolToCounters, K)", chk.H("K", k))).Found &&
-				!g.BranchAlways(es[0], sp.IsAssignPat("R", "append(R, K)", chk.H("K", k))).Found &&
-				!loopHasBreak(g, rs)
+			// every iteration for a pool that is gone from the new configuration has, when it ends, dropped the
+			// metrics, dropped the counters and reported the pool as changed (whatever the shape of the branch)
+			done := chk.GAnd(chk.GEvent(sp.ContainsPat("deleteStatsFor(K)", chk.H("K", k))),
+				chk.GEvent(sp.ContainsPat("delete(RECV.poolToCounters, K)", chk.H("K", k))),
+				chk.GEvent(sp.IsAssignPat("R", "append(R, K)", chk.H("K", k))))
+			okRemoved = true
+			ends := g.LoopIteration(rs, chk.GOr(chk.GNot(removed), done))
+			for _, e := range ends {
+				if !e.OK || e.Break {
+					okRemoved = false
+				}
+			}
+			okRemoved = okRemoved && len(ends) > 0
 			// this loop runs before the new pools are installed
 			inst := g.Find(sp.IsAssignPat("RECV.pools", "NP", chk.H("NP", newPools)))
 			if len(inst) == 1 {
